@@ -66,7 +66,30 @@ def mk_case(rng, cfg, host, port_style):
     if style == 7:
         table[py_expand(ns, dom, addr)] = [ip1]
     table.setdefault("other.default.svc.cluster.local", ["10.1.1.1"])
-    return {"ns": ns, "dom": dom, "host": full, "table": table}
+    c = {"ns": ns, "dom": dom, "host": full, "table": table}
+    # a fifth of the cases take their configuration from the ENVIRONMENT (namespace from POD_NAMESPACE, domain from
+    # KITEX_XDS_DOMAIN: unset, present but empty - both mean cluster.local -, or set); needs a non-empty namespace
+    if ns != "" and rng.random() < 0.2:
+        mode = rng.choice(["unset", "empty", "set"]) if dom != "" else rng.choice(["unset", "empty"])
+        c["env_dom"] = mode
+        if mode != "set":
+            c["dom"] = "cluster.local"
+            return mk_case_fix(rng, c, host, port_style)
+    return c
+
+
+def mk_case_fix(rng, c, host, port_style):
+    """the same case with the table rebuilt for the effective domain"""
+    env = c["env_dom"]
+    c2 = mk_case(random_clone(rng), (c["ns"], c["dom"]), host, port_style)
+    c2.pop("env_dom", None)
+    c2["env_dom"] = env
+    return c2
+
+
+def random_clone(rng):
+    import random
+    return random.Random(rng.getrandbits(64))
 
 
 def gen_cases(rng, tier):
@@ -95,7 +118,7 @@ def gen_cases(rng, tier):
 
 
 def to_harness(c):
-    return {"ns": c["ns"], "dom": c["dom"], "host": c["host"], "table": c["table"]}
+    return {"ns": c["ns"], "dom": c["dom"], "host": c["host"], "table": c["table"], "env_dom": c.get("env_dom", "")}
 
 
 def to_gallina(c, o):
